@@ -320,6 +320,15 @@ pub fn wire_items<C: Suite>(m: &Material<C>) -> Vec<WireItem> {
         false,
     ));
     v.push(raw_item::<VerifiableSecretSharingCommitment<C>>(
+        "VssCommitment.whole.refreshing",
+        WKind::Container,
+        m.refreshing_share.commitment(),
+        false,
+        |x| x.serialize_whole().ok(),
+        |b| VerifiableSecretSharingCommitment::<C>::deserialize_whole(b).ok(),
+        false,
+    ));
+    v.push(raw_item::<VerifiableSecretSharingCommitment<C>>(
         "VssCommitment.list",
         WKind::Container,
         sh.commitment(),
